@@ -81,10 +81,20 @@ if r6:
     out.append("  custom sections, block modes) had the thinnest rule sets.  After the response (§3 \"Rules added in round 6\"): %d/%d by" % (sum(1 for r in r6 if r[4]), n6))
     out.append("  the target check, %d/%d by some check.  A note in one agent's report led to the third defect of the unmodified tree" % (sum(1 for r in r6 if r[5]), n6))
     out.append("  found this way (661c1df; §5b).")
+r7 = [r for r in rows if r[2] == 7]
+if r7:
+    n7 = len(r7)
+    f7t = sum(1 for r in r7 if r[7])
+    f7a = sum(1 for r in r7 if r[8])
+    out.append("* **Round 7** (%d changes for the six properties with the lowest first-sight rates so far: C21, C23, C24, C27, C28, C30;" % n7)
+    out.append("  twelve used sites shown per property).  First sight with the rules frozen at commit db8c0ba: **%d/%d (%d%%) by the target" % (f7t, n7, round(100.0 * f7t / n7)))
+    out.append("  property's check, %d/%d (%d%%) by some check**; after the response %d/%d and %d/%d.  One new clause written for a seed" % (f7a, n7, round(100.0 * f7a / n7), sum(1 for r in r7 if r[4]), n7, sum(1 for r in r7 if r[5]), n7))
+    out.append("  (records share the emission's `deleted` test) reported the *unmodified* import loop — the fourth defect found with the")
+    out.append("  sub-agents' help (a5e88fa; §5b).")
 out.append("")
 out.append("The thorough tier re-applies, for each property, every change listed here as caught by it and requires the check to fire.")
 out.append("")
-out.append("| id | what the change does | target check fires | fires under | deciding rules | first sight (rounds 2–6) |")
+out.append("| id | what the change does | target check fires | fires under | deciding rules | first sight (rounds 2–7) |")
 out.append("|---|---|---|---|---|---|")
 for name, prop, rnd, summ, tgt, fires, rules, fst, fsa in rows:
     out.append("| %s | %s | %s | %s | %s | %s |" % (name, summ, "yes" if tgt else "no", ",".join(fires) or "—", ", ".join(rules)[:110] or "—",
